@@ -63,11 +63,33 @@ def run(cmd, cwd=None, env=None, timeout=None, stdin=None):
 
 # ---------------------------------------------------------------- builds
 
+def go_build_atomic(pkg, out_path, extra=(), timeout=1200):
+    """go build into a temporary file, then rename over the target only when the bytes differ: a check running at the
+    same time keeps executing the binary it started with and never meets a half-written or busy file."""
+    tmp = "%s.tmp.%d" % (out_path, os.getpid())
+    rc, out, _ = run(["go", "build"] + list(extra) + ["-o", tmp, pkg], cwd=os.path.join(VERIF, "harness"), env=GOENV, timeout=timeout)
+    if rc != 0:
+        try:
+            os.remove(tmp)
+        except OSError:
+            pass
+        return rc, out
+    same = False
+    if os.path.exists(out_path) and os.path.getsize(out_path) == os.path.getsize(tmp):
+        with open(out_path, "rb") as a, open(tmp, "rb") as b:
+            same = a.read() == b.read()
+    if same:
+        os.remove(tmp)
+    else:
+        os.replace(tmp, out_path)
+    return 0, out
+
+
 def gen_facts():
     """Regenerate coq/theories/Generated.v from /repo's working tree (only rewritten when changed)."""
     gs = os.path.join(BUILD, "gosrc2v")
     with Lock("go"):
-        rc, out, _ = run(["go", "build", "-o", gs, "./cmd/gosrc2v"], cwd=os.path.join(VERIF, "harness"), env=GOENV, timeout=600)
+        rc, out = go_build_atomic("./cmd/gosrc2v", gs, timeout=600)
     if rc != 0:
         return False, "gosrc2v build failed:\n" + out
     target = os.path.join(COQ, "theories", "Generated.v")
@@ -159,11 +181,8 @@ def build_go(tags="verif", race=False):
             d = os.path.join(VERIF, "harness", "cmd", name)
             if not os.path.isdir(d):
                 continue
-            cmd = ["go", "build", "-tags", tags]
-            if race:
-                cmd.append("-race")
-            cmd += ["-o", os.path.join(BUILD, name + suffix), "./cmd/" + name]
-            rc, out, _ = run(cmd, cwd=os.path.join(VERIF, "harness"), env=GOENV, timeout=1200)
+            extra = ["-tags", tags] + (["-race"] if race else [])
+            rc, out = go_build_atomic("./cmd/" + name, os.path.join(BUILD, name + suffix), extra)
             outs.append(out)
             if rc != 0:
                 return False, "\n".join(outs)
